@@ -1751,10 +1751,7 @@ class GroupBy:
         return_polars = self._values_is_polars(type_list)
 
         if times is not None:
-            if len(times) != len(self):
-                raise ValueError(
-                    f"Length of times ({len(times)}) does not match length of group keys ({len(self)})"
-                )
+            # (the length of times is checked, with its own message, by ema_grouped)
             reference_index = (
                 common_index if common_index is not None else self._key_index
             )
